@@ -433,6 +433,7 @@ package rosmar
 //@   loop 1 body [C15:run.changed]      feed.lastCasChanged <==> (athead(feed.lastCasChanged) || delivered().Cas > athead(feed.lastCas))
 //@   ensures [C16:run.done-closed-once] !isnull(feed.args.DoneChan) ==> count("closechan") == 1
 //@   ensures [C16:run.done-absent]      isnull(feed.args.DoneChan) ==> count("closechan") == 0
+//@   ensures [C16:run.terminator-watched] (!isnull(feed.args.Terminator) ==> count("spawn") == 1) && (isnull(feed.args.Terminator) ==> count("spawn") == 0)
 //@   ensures [C15:run.checkpoint]       count("call:dcpFeed.writeCheckpoint") <= 1 && (feed.lastCasChanged ==> count("call:dcpFeed.writeCheckpoint") == 1)
 //@   ensures [C20:run.unlocked]         any: nolocks()
 //@
@@ -449,6 +450,7 @@ package rosmar
 //@   ensures [C09,C16:StartDCPFeed.push-count] result == nil ==> lenlist(pushes()) == (if bf then 2 else 0) + (if args.Dump then 1 else 0)
 //@   ensures [C16:StartDCPFeed.dump-eof]      (result == nil && args.Dump && bf ==> pushes()[2].isnil) && (result == nil && args.Dump && !bf ==> pushes()[0].isnil)
 //@   ensures [C08,C16:StartDCPFeed.spawned]   result == nil ==> count("spawn") == 1
+//@   ensures [C16,C20:StartDCPFeed.no-goroutine-on-error] result != nil ==> count("spawn") == 0 && count("mapupdate") == 0
 //@   ensures [C09:StartDCPFeed.nobackfill]    !bf ==> count("call:Collection.enqueueBackfillEvents") == 0
 //@   ensures [C08,C15,C16:StartDCPFeed.registers-live] result == nil && !args.Dump ==> count("mapupdate") == 1
 //@   ensures [C16:StartDCPFeed.dump-not-registered]    args.Dump || result != nil ==> count("mapupdate") == 0
